@@ -107,9 +107,13 @@ def r7_1(ctx: Ctx) -> None:
                f"returns ({rp}, {rr}); verdict variable of permit_frame_check is {pvar}")
     rec = [n for n in g.nodes if n.kind == "stmt" and isinstance(n.ast, ast.Assign) and any(unparse(t) == rr for t in n.ast.targets)
            and unparse(n.ast.value) == lv]
-    ok_rec = bool(rec) and all(g.path_avoiding([r], lambda e: e in match_edges) is None for r in rec)
+    # the loop variable itself may be what is returned (`for rule in acl: ... if match: break` / `else: rule = implicit`): then
+    # the matching rule is the deciding rule by construction, provided the scan stops at the match (checked above)
+    same_var = rr == lv
+    ok_rec = (same_var and not cont) or (bool(rec) and all(g.path_avoiding([r], lambda e: e in match_edges) is None for r in rec))
     ctx.record("R7.1", ctx.key(fn, "matching rule recorded as the deciding rule"), fn.loc(), ok_rec,
-               f"`{rr} = {lv}` only on the match edge" if ok_rec else "deciding rule is not the matching rule")
+               (f"`{rr}` is the loop variable and the scan stops at the match" if same_var else f"`{rr} = {lv}` only on the match edge")
+               if ok_rec else "deciding rule is not the matching rule")
     # implicit action iff nothing recorded
     imp = [n for n in g.nodes if n.kind == "stmt" and isinstance(n.ast, ast.Assign) and any(unparse(t) == pvar for t in n.ast.targets)
            and "implicit_action" in unparse(n.ast.value)]
@@ -174,7 +178,8 @@ def r7_1(ctx: Ctx) -> None:
                f"`{pvar}` and `{rr}` are bound by the scan, the implicit rule and their initialisation only" if not foreign else
                "another source decides: " + "; ".join(foreign[:3]))
     init_none = [v for v, i, _ in ld.defs.get(rr, []) if isinstance(v, ast.Constant) and v.value is None]
-    ctx.record("R7.1", ctx.key(fn, "no deciding rule before the scan"), fn.loc(), bool(init_none), f"`{rr}` starts as None")
+    ctx.record("R7.1", ctx.key(fn, "no deciding rule before the scan"), fn.loc(), bool(init_none) or same_var,
+               f"`{rr}` starts as None" if init_none else f"`{rr}` is the loop variable: nothing is recorded before the scan")
     incs = [n for n in g.nodes if n.kind == "stmt" and isinstance(n.ast, ast.AugAssign) and unparse(n.ast.target).endswith("match_count")]
     lo, hi = g.count_range(lambda n: n in incs)
 
